@@ -140,7 +140,7 @@ func (c *regexpSimplifyChecker) walk(e syntax.Expr) {
 		}
 
 	case syntax.OpGroupWithFlags:
-		out.WriteString("(")
+		out.WriteString("(?")
 		out.WriteString(e.Args[1].Value)
 		out.WriteString(":")
 		c.walk(e.Args[0])
